@@ -218,17 +218,18 @@ func (in *injector) yield() {
 // running a history
 
 type StepOut struct {
-	Err     string `json:"err,omitempty"`
-	Panic   string `json:"panic,omitempty"`
-	Ret     string `json:"ret,omitempty"`
-	Matched string `json:"matched,omitempty"`
-	Rest    string `json:"rest,omitempty"`
-	Detail  string `json:"detail,omitempty"`
-	Attrs   string `json:"attrs,omitempty"`
-	St      string `json:"st,omitempty"`
-	Seed    string `json:"seed"`
-	ceiling bool
-	leak    *leakObs
+	Err      string `json:"err,omitempty"`
+	Panic    string `json:"panic,omitempty"`
+	Ret      string `json:"ret,omitempty"`
+	Matched  string `json:"matched,omitempty"`
+	Rest     string `json:"rest,omitempty"`
+	Detail   string `json:"detail,omitempty"`
+	Attrs    string `json:"attrs,omitempty"`
+	St       string `json:"st,omitempty"`
+	Seed     string `json:"seed"`
+	ceiling  bool
+	leak     *leakObs
+	retMoved string // the result changed between right after the evaluation and after another VM ran (both forms)
 }
 
 type leakObs struct{ sig, observed, expected string }
@@ -390,7 +391,16 @@ func runStep(vm *ds.Context, st Step, log *[]stEvent, w *world, sp StepPlan, pro
 			o.Ret = vmx.Repr(val)
 			return
 		}
+		// "whatever other VMs did": an unrelated VM of the host (seeded, so that it stays away from the process-wide
+		// generator) evaluates a command of its own before the result of this one is read
+		atOnce := vmx.Repr(vm.Ret)
+		neighbour := &ds.Context{Seed: []byte("neighbour-seed16")}
+		neighbour.Init()
+		_ = neighbour.Run("'other' + '0' + 3d20kh2")
 		o.Ret = vmx.Repr(vm.Ret)
+		if o.Ret != atOnce {
+			o.retMoved = fmt.Sprintf("%s right after the evaluation, %s after another VM evaluated a command", clip(atOnce, 200), clip(o.Ret, 200))
+		}
 		o.Matched = vm.Matched
 		o.Rest = vm.RestInput
 		o.Detail = vm.GetDetailText()
@@ -646,6 +656,11 @@ func judge(c Case, s *rt.Section) (v verdict) {
 		}
 	}
 	for i, o := range clean.outs {
+		if o.retMoved != "" {
+			v.f = s.NewFailure("same-value", "ret:changed-by-another-vm", c, fmt.Sprintf("step %d %s(%q): result read as %s", i, apiName(c.Steps[i].API), clip(c.Steps[i].Src, 300), o.retMoved),
+				"the value does not depend on what other VMs do")
+			return
+		}
 		if o.leak != nil {
 			v.f = s.NewFailure("noleak", o.leak.sig+"/"+kindsSig(c.Steps[i]), c,
 				fmt.Sprintf("step %d %s(%q): %s", i, apiName(c.Steps[i].API), clip(c.Steps[i].Src, 300), o.leak.observed), o.leak.expected)
@@ -872,14 +887,19 @@ func drawCase(t *rapid.T, s *rt.Section) Case {
 		Mode:       rapid.SampledFrom([]string{"", "", "", "", "", "", "min", "max"}).Draw(t, "mode"),
 		NoNDice:    rapid.IntRange(0, 19).Draw(t, "noNDice") == 0,
 		SeedHex:    hex.EncodeToString(rapid.SliceOfN(rapid.Byte(), 16, 16).Draw(t, "seed"))}
+	// seeds a host may well use: all zero bytes (the zero value of a 16-byte array), all ones, a counter in the last byte
+	if rapid.IntRange(0, 11).Draw(t, "plainSeed") == 0 {
+		c.Cfg.SeedHex = rapid.SampledFrom([]string{"00000000000000000000000000000000", "ffffffffffffffffffffffffffffffff", "00000000000000000000000000000001",
+			"01000000000000000000000000000000", "0000000000000000ffffffffffffffff"}).Draw(t, "plainSeedHex")
+	}
 	c.NoRandom = rapid.IntRange(0, 9).Draw(t, "noRandom") == 0
 
 	o := gen.DefaultOpts()
 	o.MaxStmts = 3
 	o.MaxDepth = 3
 	o.SingleKeyDicts = false // dicts of several keys: what a script sees of them (text, keys, values, items) must not depend on Go map order
-	o.ThisAssign = false    // open finding of C02 (this.x = v is dropped)
-	o.StrIndexOOB = false   // open finding of C02 (string index past the end)
+	o.ThisAssign = false     // open finding of C02 (this.x = v is dropped)
+	o.StrIndexOOB = false    // open finding of C02 (string index past the end)
 	o.Avoid = s.Avoid
 	o.Extra = rapid.IntRange(0, 2).Draw(t, "extra") == 0
 	if rapid.IntRange(0, 5).Draw(t, "hostile") == 0 {
